@@ -799,7 +799,7 @@ func runC16(c *mon.Ctx) {
 // resolves to, with that name as Host header, whatever the client resolved before.
 func c16ClientSequences(c *mon.Ctx) {
 	r := c.Rand("client-sequences")
-	type hit struct{ server, host string }
+	type hit struct{ server, host, sni string }
 	var mu sync.Mutex
 	var hits []hit
 	var names []string
@@ -808,7 +808,11 @@ func c16ClientSequences(c *mon.Ctx) {
 		label := fmt.Sprintf("server%d", i)
 		srv := httptest.NewUnstartedServer(http.HandlerFunc(func(w http.ResponseWriter, q *http.Request) {
 			mu.Lock()
-			hits = append(hits, hit{label, q.Host})
+			sni := ""
+			if q.TLS != nil {
+				sni = q.TLS.ServerName
+			}
+			hits = append(hits, hit{label, q.Host, sni})
 			mu.Unlock()
 			w.Header().Set("Content-Type", "application/json")
 			_, _ = w.Write([]byte(`{"server":{"name":"` + label + `","version":"1"}}`))
@@ -857,6 +861,51 @@ func c16ClientSequences(c *mon.Ctx) {
 						c.Failf("client:invalid-name-not-refused:userinfo", "%s for the invalid server name %q (err=%v) sent a request to %s (Host %q)", api, name, err, names[0], got[0].host)
 						return
 					}
+				}
+			})
+		}
+	}
+	// a client built without well-known / SRV lookups still follows the steps that need no lookup: explicit port (TLS
+	// name = the host without the port, Host header = the server name), and port 8448 where the name gives none
+	if c.Shard == 0 {
+		_, portStr, _ := net.SplitHostPort(names[1])
+		plain := "localhost:" + portStr
+		var on8448 *httptest.Server
+		if l, err := net.Listen("tcp", "127.0.0.1:8448"); err == nil {
+			on8448 = httptest.NewUnstartedServer(servers[2].Config.Handler)
+			on8448.Listener.Close()
+			on8448.Listener = l
+			on8448.Config.ErrorLog = log.New(io.Discard, "", 0)
+			on8448.StartTLS()
+			defer on8448.Close()
+		}
+		for _, name := range []string{plain, "localhost"} {
+			if name == "localhost" && on8448 == nil {
+				c.Note("port 8448 is taken on this machine: default-port case of the lookup-free client skipped")
+				continue
+			}
+			c.Case("client:lookups-off", map[string]any{"name": name}, func() {
+				c.Nontrivial("client-lookups-off|" + name)
+				cl := fclient.NewClient(fclient.WithSkipVerify(true), fclient.WithTimeout(5*time.Second))
+				mu.Lock()
+				hits = nil
+				mu.Unlock()
+				ctx, cancel := context.WithTimeout(context.Background(), 5*time.Second)
+				_, err := cl.GetVersion(ctx, spec.ServerName(name))
+				cancel()
+				mu.Lock()
+				got := append([]hit{}, hits...)
+				mu.Unlock()
+				c.Count("client_lookups_off_requests")
+				if err != nil || len(got) != 1 {
+					c.Failf("client-lookups-off:request-not-delivered", "a client without well-known / SRV lookups asked for %s: err=%v, requests seen %v (expected one at %s)", name, err, got, map[bool]string{true: names[1], false: "127.0.0.1:8448"}[name == plain])
+					return
+				}
+				if got[0].host != name {
+					c.Failf("client-lookups-off:wrong-host-header", "request for %s carried Host %q", name, got[0].host)
+				}
+				if got[0].sni != "localhost" {
+					c.Failf("client-lookups-off:wrong-tls-server-name", "request for %s asked for the TLS server name %q, the host is localhost", name, got[0].sni)
 				}
 			})
 		}
